@@ -299,6 +299,10 @@ fn broken_links(tree: &Tree) -> Vec<String> {
         for c in cs {
             match c {
                 None => {
+                    // `..` is resolved only in a directory
+                    if !(cur.is_empty() || matches!(kind_of(tree, &cur), Some(Kind::Dir(_)))) {
+                        return None;
+                    }
                     cur.pop();
                 }
                 Some(n) => {
@@ -330,7 +334,7 @@ fn broken_links(tree: &Tree) -> Vec<String> {
                             cs.pop();
                             cs.extend(comps(target));
                         }
-                        trailing = target.ends_with('/');
+                        trailing = target.ends_with('/') || target.ends_with("/.") || target == ".";
                     }
                     _ => {
                         ok = true;
@@ -1102,6 +1106,19 @@ fn main() {
         (6, "*/../u"),
         (6, "*/../u/"),
         (6, "*/../w"),
+        // `.` and `..` are resolved only in a directory (b4af618)
+        (2, "?/."),
+        (2, "?/.."),
+        (2, "?/../a"),
+        (2, "*/./a"),
+        (2, "*/../?"),
+        (2, "[?*]/."),
+        (1, "*/.."),
+        (1, "l/../*"),
+        (1, "up/../*"),
+        (1, "*/../a/*"),
+        (1, "a/*/."),
+        (1, "a/*/.."),
         (7, "sub/d*"),
         (7, "*/dl"),
         (7, "*/f"),
